@@ -16,7 +16,7 @@ DEFAULTS = {
     "CONSTANTS": "", "VARIABLES": "", "DEFINES": "", "PROCEDURES": "", "OPS": "",
     "MAINT_MPMC": "", "MAINT_SPIN": "", "IDLE": "         skip;", "MEMCASES": "",
     "FIBERFIELDS": "", "MGRFIELDS": "", "MODELED": "", "POST": "",
-    "SKIPKINDS": "", "TRACEACTIONS": "", "TRACENEXT": "", "FNPROC": "", "CALLLABELS": "",
+    "SKIPKINDS": "", "TRACEACTIONS": "", "TRACENEXT": "", "FNPROC": "", "CALLLABELS": "", "PINNED": "", "ACCESS": "",
     "GROUPOF": "", "GROUPVAL": "", "FAITHFUL": "", "UNFAITHFUL": "", "MONFIELDS": "", "MONCASES": "", "PROCESSES": "", "MCENV": "",
 }
 
@@ -167,6 +167,16 @@ def assemble(name, template="FiberCore.tmpl"):
         raise SystemExit(f"unfilled placeholders in trace spec: {left}")
     with open(os.path.join(GEN, "Trace" + name + ".tla"), "w") as f:
         f.write(tsrc)
+    # label -> (C function, field) of the shared-memory READ a silent label performs: lets a model
+    # behaviour be replayed into the real code with its reads in place (tools/witness.py, VRT_GUIDE)
+    acc = {}
+    core_acc = os.path.join(SPEC, "core", "FiberCore.access")
+    lines = (open(core_acc).read() if os.path.exists(core_acc) else "") + "\n" + sec.get("ACCESS", "")
+    for line in lines.splitlines():
+        w = line.split("#")[0].split()
+        if len(w) == 3:
+            acc[w[0]] = [w[1], w[2]]
+    json.dump(acc, open(os.path.join(GEN, name + ".access.json"), "w"), indent=0)
     return path
 
 
@@ -251,6 +261,8 @@ def gen_mc(scen, outdir=GEN):
     extra = scen.get("tla_consts", {})  # name -> TLA expression text
     for k, v in extra.items():
         lines.append(f"c{k} == {v}")
+    for w in scen.get("witness", []):
+        lines.append(f"NotW_{w} == ~({w})")
     lines.append("====")
     body = "\n".join(lines) + "\n"
     with open(os.path.join(outdir, f"MC_{name}.tla"), "w") as f:
@@ -273,6 +285,11 @@ def gen_mc(scen, outdir=GEN):
         mc += ["CONSTRAINT " + scen["constraint"]]
     with open(os.path.join(outdir, f"MC_{name}.cfg"), "w") as f:
         f.write("\n".join(mc) + "\n")
+    for w in scen.get("witness", []):
+        # reachability witness: TLC's counterexample to "never W" is a behaviour that reaches W
+        wc = ["SPECIFICATION MCSpec"] + cl + ["INVARIANTS", f" NotW_{w}", "CHECK_DEADLOCK FALSE"]
+        with open(os.path.join(outdir, f"MCW_{name}_{w}.cfg"), "w") as f:
+            f.write("\n".join(wc) + "\n")
     live = ["SPECIFICATION MCFair"] + cl + ["PROPERTY Live", "CHECK_DEADLOCK FALSE"]
     with open(os.path.join(outdir, f"MCL_{name}.cfg"), "w") as f:
         f.write("\n".join(live) + "\n")
